@@ -40,8 +40,9 @@ def _report(e, where):
         _state["errors"].append("%s: %s" % (where, "".join(traceback.format_exception(type(e), e, e.__traceback__)[-4:])))
 
 
-def hook(owner, name, before=None, after=None):
-    """install (or extend) a wrapper on owner.name.  before(self,args,kwargs)->token ; after(self,args,kwargs,result,token)"""
+def hook(owner, name, before=None, after=None, error=None):
+    """install (or extend) a wrapper on owner.name.  before(args,kwargs)->token ; after(args,kwargs,result,token) ;
+    error(args,kwargs,exception,token) when the real callable raises (to keep observer state balanced; the exception propagates)"""
     if not enabled():
         return
     key = (owner, name)
@@ -55,7 +56,7 @@ def hook(owner, name, before=None, after=None):
                 return orig(*args, **kwargs)
             counters[key] = counters.get(key, 0) + 1
             tokens = []
-            for b, _ in obs:
+            for b, _, _ in obs:
                 tok = None
                 if b is not None:
                     try:
@@ -66,8 +67,17 @@ def hook(owner, name, before=None, after=None):
                     except Exception as e:  # monitor bug: never let it reach the code under test
                         _report(e, "before %s.%s" % (getattr(owner, "__name__", owner), name))
                 tokens.append(tok)
-            result = orig(*args, **kwargs)
-            for (_, af), tok in zip(obs, tokens):
+            try:
+                result = orig(*args, **kwargs)
+            except BaseException as exc:
+                for (_, _, ef), tok in zip(obs, tokens):
+                    if ef is not None:
+                        try:
+                            ef(args, kwargs, exc, tok)
+                        except Exception as e:
+                            _report(e, "error-observer %s.%s" % (getattr(owner, "__name__", owner), name))
+                raise
+            for (_, af, _), tok in zip(obs, tokens):
                 if af is not None:
                     try:
                         with quiet():
@@ -81,7 +91,7 @@ def hook(owner, name, before=None, after=None):
         wrapper.__fdmon_orig__ = orig
         setattr(owner, name, wrapper)
         _installed[key] = (orig, obs)
-    _installed[key][1].append((before, after))
+    _installed[key][1].append((before, after, error))
 
 
 def unhook_all():
